@@ -522,7 +522,7 @@ Proof.
   intros A. unfold exit_idle. destruct (bstate s =? IDLE); [|exact A].
   pose proof (Alive_same _ _ (sa_update s CONNECTING (-1)) A) as A1.
   destruct (update_state s CONNECTING (-1)) as [s1 e1]. cbn [fst] in A1.
-  pose proof (start_alive s1 A1) as A2. destruct (start_first_pass s1). exact A2.
+  pose proof (start_alive _ (Alive_same _ _ (sa_list s1 (addrs s1) 0) A1)) as A2. destruct (start_first_pass (set_list s1 (addrs s1) 0)). exact A2.
 Qed.
 
 Lemma step_main_alive s op : Alive s -> Alive (fst (step_main s op)).
@@ -670,8 +670,8 @@ Lemma exit_idle_nr s : nr (snd (exit_idle s)).
 Proof.
   unfold exit_idle. destruct (bstate s =? IDLE); [|reflexivity].
   pose proof (update_state_nr s CONNECTING (-1) ltac:(discriminate)) as X.
-  destruct (update_state s CONNECTING (-1)) as [s1 e1]. pose proof (start_tf s1) as T.
-  destruct (start_first_pass s1). cbn [snd] in *. apply nr_app; [exact X|apply nr_tf; exact T].
+  destruct (update_state s CONNECTING (-1)) as [s1 e1]. pose proof (start_tf (set_list s1 (addrs s1) 0)) as T.
+  destruct (start_first_pass (set_list s1 (addrs s1) 0)). cbn [snd] in *. apply nr_app; [exact X|apply nr_tf; exact T].
 Qed.
 
 Lemma ready_step s op : Alive s -> ready_ok s op (snd (step_main s op)) = true.
@@ -832,7 +832,7 @@ Lemma J1_exit_idle s : J1 s -> J1 (fst (exit_idle s)).
 Proof.
   intros H. unfold exit_idle. destruct (bstate s =? IDLE); [|exact H].
   pose proof (J1_update s CONNECTING (-1) H) as Y. destruct (update_state s CONNECTING (-1)) as [s1 e1].
-  pose proof (J1_start s1 Y) as Z. destruct (start_first_pass s1). exact Z.
+  pose proof (J1_start (set_list s1 (addrs s1) 0) Y) as Z. destruct (start_first_pass (set_list s1 (addrs s1) 0)). exact Z.
 Qed.
 
 Lemma J1_step_main s op : J1 s -> J1 (fst (step_main s op)).
@@ -971,7 +971,7 @@ Proof.
     destruct z as [|q|q]; try (apply sticky_walk_nc, X).
 Qed.
 
-(* ---------- the [0] marker and the bridge for clauses 1 and 4 ---------- *)
+(* ---------- the [0] marker and the bridge ---------- *)
 
 Definition nz (w : word) : bool := match w with z :: _ => negb (z =? 0) | [] => true end.
 Definition nzl (e : list word) : Prop := forallb nz e = true.
@@ -1092,9 +1092,507 @@ Proof.
                destruct more; [apply nzl_request|reflexivity]
              | unfold exit_idle; destruct (bstate s =? IDLE); [|reflexivity];
                pose proof (nzl_update s CONNECTING (-1)) as X; destruct (update_state s CONNECTING (-1)) as [s1 e1];
-               pose proof (nzl_start s1) as Y; destruct (start_first_pass s1); apply nzl_app; assumption
+               pose proof (nzl_start (set_list s1 (addrs s1) 0)) as Y; destruct (start_first_pass (set_list s1 (addrs s1) 0)); apply nzl_app; assumption
              | destruct r as [|z [|v [|x r]]]; try reflexivity;
                destruct (sc_of s z); [|reflexivity]; destruct (_ && _); [apply nzl_sc_state|reflexivity] ].
+Qed.
+
+(* ---------- clause 3: a first pass ends only by publishing TRANSIENT_FAILURE ---------- *)
+
+Lemma tfp_app a b : tf_published (a ++ b) = tf_published a || tf_published b.
+Proof. unfold tf_published. rewrite u_events_app, existsb_app. reflexivity. Qed.
+
+(* ET s r: if the pass flag is off after r and was on in s, r published TF *)
+Definition ET (s : st) (r : st * list word) : Prop :=
+  firstPass (fst r) = false -> firstPass s = true -> tf_published (snd r) = true.
+
+Lemma fp_update s v pk : firstPass (fst (update_state s v pk)) = firstPass s.
+Proof. unfold update_state, force_state. destruct (_ && _); reflexivity. Qed.
+Lemma fp_incr s : firstPass (fst (al_increment s)) = firstPass s.
+Proof. unfold al_increment. destruct (al_valid s); reflexivity. Qed.
+Lemma fp_seek s a : firstPass (fst (al_seek s a)) = firstPass s.
+Proof. unfold al_seek. destruct (index_of a (addrs s)); reflexivity. Qed.
+Lemma fp_sched s : firstPass (schedule_next s) = firstPass s.
+Proof. unfold schedule_next. destruct (al_has_next _); reflexivity. Qed.
+Lemma fp_resolver_error s : firstPass (fst (resolver_error s)) = firstPass s.
+Proof. unfold resolver_error. destruct (_ && _); [reflexivity|apply fp_update]. Qed.
+
+Lemma update_tf_published s pk : tf_published (snd (update_state s TF pk)) = true.
+Proof.
+  unfold update_state.
+  replace ((TF =? bstate s) && negb (bstate s =? TF)) with false; [reflexivity|].
+  destruct (Z.eqb_spec (bstate s) TF) as [->|N]; [reflexivity|].
+  rewrite (proj2 (Z.eqb_neq TF (bstate s))); [reflexivity|congruence].
+Qed.
+
+(* endFirstPassIfPossibleLocked either does nothing or ends the pass and publishes TF *)
+Lemma efp_cases s :
+  end_first_pass s = (s, []) \/
+  (firstPass (fst (end_first_pass s)) = false /\ tf_published (snd (end_first_pass s)) = true /\
+   al_valid s = false /\ forallb (fun sc => d_failed (sds s sc)) (subs s) = true).
+Proof.
+  unfold end_first_pass. destruct (al_valid s); [left; reflexivity|].
+  destruct (forallb _ (subs s)); [|left; reflexivity]. right.
+  pose proof (update_tf_published (set_pass s false (numTF s)) (-1)) as T.
+  pose proof (fp_update (set_pass s false (numTF s)) TF (-1)) as F.
+  destruct (update_state (set_pass s false (numTF s)) TF (-1)) as [s2 e]. cbn [fst snd] in *.
+  repeat split; [exact F|]. rewrite tfp_app, T. reflexivity.
+Qed.
+
+Lemma ET_efp s : ET s (end_first_pass s).
+Proof.
+  destruct (efp_cases s) as [E|[_ [T _]]]; intros F1 F2; [|exact T].
+  rewrite E in F1. cbn in F1. congruence.
+Qed.
+
+Lemma ET_req fuel : forall s, ET s (req_loop fuel s).
+Proof.
+  induction fuel as [|f IH]; intros s; [intros F1 F2; cbn in F1; congruence|]. cbn [req_loop].
+  assert (G : forall s1 sc e1, firstPass s1 = firstPass s ->
+    ET s (if d_raw (sds s1 sc) =? IDLE then (schedule_next s1, e1 ++ [evC sc])
+     else if d_raw (sds s1 sc) =? TF
+          then let '(s3, more) := al_increment (upd_sd s1 sc (d_set_failed true)) in
+               if more then let '(s4, e4) := req_loop f s3 in (s4, e1 ++ e4)
+               else let '(s4, e4) := end_first_pass s3 in (s4, e1 ++ e4)
+          else if d_raw (sds s1 sc) =? CONNECTING then (schedule_next s1, e1) else (s1, e1))).
+  { intros s1 sc e1 H1.
+    destruct (d_raw (sds s1 sc) =? IDLE); [intros F1 F2; cbn [fst] in F1; rewrite fp_sched in F1; congruence|].
+    destruct (d_raw (sds s1 sc) =? TF).
+    - pose proof (fp_incr (upd_sd s1 sc (d_set_failed true))) as F3.
+      destruct (al_increment (upd_sd s1 sc (d_set_failed true))) as [s3 more]. cbn [fst] in F3.
+      change (firstPass (upd_sd s1 sc (d_set_failed true))) with (firstPass s1) in F3.
+      destruct more.
+      + specialize (IH s3). destruct (req_loop f s3) as [s4 e4]. intros F1 F2. unfold ET in IH. cbn [fst snd] in *.
+        rewrite tfp_app. rewrite (IH F1 ltac:(congruence)). apply orb_true_r.
+      + pose proof (ET_efp s3) as X. destruct (end_first_pass s3) as [s4 e4]. intros F1 F2. unfold ET in X. cbn [fst snd] in *.
+        rewrite tfp_app. rewrite (X F1 ltac:(congruence)). apply orb_true_r.
+    - destruct (d_raw (sds s1 sc) =? CONNECTING); intros F1 F2; cbn [fst] in F1; [rewrite fp_sched in F1|]; congruence. }
+  destruct (lookup s (cur_addr s)) as [sc|]; apply G; reflexivity.
+Qed.
+
+Lemma ET_request s : ET s (request_connection s).
+Proof. unfold request_connection. destruct (al_valid s); [apply ET_req|intros F1 F2; cbn in F1; congruence]. Qed.
+
+(* after startFirstPassLocked the flag is on unless the pass ended at once, publishing TF *)
+Lemma start_fp s : firstPass (fst (start_first_pass s)) = false -> tf_published (snd (start_first_pass s)) = true.
+Proof. unfold start_first_pass. intros F. exact (ET_request _ F eq_refl). Qed.
+
+Lemma ET_weaken s0 s r : firstPass s = firstPass s0 -> ET s r -> ET s0 r.
+Proof. intros E H F1 F2. apply H; [exact F1|congruence]. Qed.
+Lemma ET_same s (r : st * list word) : firstPass (fst r) = firstPass s -> ET s r.
+Proof. intros E F1 F2. congruence. Qed.
+Lemma ET_resolver_update s l0 : ET s (resolver_update s l0).
+Proof.
+  unfold resolver_update. destruct (filter valid_addr l0) as [|a l1].
+  - cbn [shutdown_all].
+    match goal with |- context [resolver_error ?x] => pose proof (fp_resolver_error x) as Y; destruct (resolver_error x) as [s3 e3] end.
+    apply ET_same. exact Y.
+  - set (l' := preprocess (a :: l1)). set (s1 := set_list (cancel_timer s) l' 0).
+    assert (G : forall (pr : bool) sk (kept : bool), firstPass sk = firstPass s -> ET s (
+       if kept then (sk, [[12; 0]])
+       else let '(s2, e2) := shutdown_all s1 (filter (fun sc => negb (memz (d_addr (sds s1 sc)) l')) (subs s1)) in
+            let s3 := set_subs s2 (filter (fun sc => memz (d_addr (sds s1 sc)) l') (subs s1)) in
+            if pr || (bstate s3 =? CONNECTING) || (length (addrs (cancel_timer s)) =? 0)%nat
+            then let '(s4, e4) := force_state s3 CONNECTING (-1) in
+                 let '(s5, e5) := start_first_pass s4 in (s5, e2 ++ e4 ++ e5 ++ [[12; 0]])
+            else if bstate s3 =? TF then let '(s5, e5) := start_first_pass s3 in (s5, e2 ++ e5 ++ [[12; 0]])
+                 else (s3, e2 ++ [[12; 0]]))).
+    { intros pr sk kept Hk. destruct kept; [apply ET_same; exact Hk|]. cbn [shutdown_all]. cbv beta iota zeta.
+      match goal with |- context [if ?c then _ else _] => destruct c end.
+      - unfold force_state.
+        match goal with |- context [start_first_pass ?x] => pose proof (start_fp x) as Z; destruct (start_first_pass x) as [s5 e5] end.
+        intros F1 F2. cbn [fst snd] in *. rewrite !tfp_app, (Z F1). rewrite !orb_true_r. reflexivity.
+      - match goal with |- context [if ?c then _ else _] => destruct c end.
+        + match goal with |- context [start_first_pass ?x] => pose proof (start_fp x) as Z; destruct (start_first_pass x) as [s5 e5] end.
+          intros F1 F2. cbn [fst snd] in *. rewrite !tfp_app, (Z F1). rewrite !orb_true_r. reflexivity.
+        + apply ET_same. reflexivity. }
+    destruct (match lookup (cancel_timer s) (cur_addr (cancel_timer s)) with
+              | Some sc => d_raw (sds (cancel_timer s) sc) =? READY | None => false end).
+    + pose proof (fp_seek s1 (cur_addr (cancel_timer s))) as HK.
+      destruct (al_seek s1 (cur_addr (cancel_timer s))) as [sk kept]. apply (G true sk kept HK).
+    + apply (G false s1 false eq_refl).
+Qed.
+
+Lemma ET_sc_state s sc v : ET s (sc_state s sc v).
+Proof.
+  unfold sc_state. set (s1 := upd_sd s sc (d_set_raw v)).
+  destruct (negb (is_active s1 sc)); [apply ET_same; reflexivity|].
+  destruct (v =? SHUTDOWN); [apply ET_same; reflexivity|].
+  set (s2 := if v =? TF then upd_sd s1 sc (d_set_failed true) else s1).
+  assert (F2 : firstPass s2 = firstPass s) by (unfold s2; destruct (v =? TF); reflexivity).
+  destruct (v =? READY).
+  { unfold shutdown_remaining. cbn [shutdown_all].
+    match goal with |- context [al_seek ?a ?b] => pose proof (fp_seek a b) as H4; destruct (al_seek a b) as [s4 found] end.
+    cbn in H4. destruct found; cbn [negb]; [|apply ET_same; cbn [fst]; congruence].
+    match goal with |- context [update_state ?a READY ?b] => pose proof (fp_update a READY b) as Y; destruct (update_state a READY b) end.
+    apply ET_same. cbn in Y. cbn [fst]. congruence. }
+  destruct (_ || _).
+  { unfold shutdown_remaining. cbn [shutdown_all].
+    match goal with |- context [update_state ?a IDLE ?b] => pose proof (fp_update a IDLE b) as Y; destruct (update_state a IDLE b) end.
+    apply ET_same. cbn in Y. cbn [fst]. congruence. }
+  destruct (firstPass s2) eqn:FP2.
+  { destruct (v =? CONNECTING).
+    - destruct (negb (d_eff (sds s2 sc) =? TF)); [|apply ET_same; cbn [fst]; congruence].
+      destruct (negb (bstate _ =? TF)); [|apply ET_same; cbn; congruence].
+      apply ET_same. rewrite fp_update. cbn. congruence.
+    - destruct (v =? TF); [|apply ET_same; cbn [fst]; congruence].
+      destruct (cur_addr _ =? _).
+      + match goal with |- context [al_increment ?a] => pose proof (fp_incr a) as H5; destruct (al_increment a) as [s5 more] end.
+        cbn in H5. eapply (ET_weaken s s5); [congruence|].
+        destruct more; [apply ET_request|apply ET_efp].
+      + eapply (ET_weaken s _); [|apply ET_efp]. cbn. congruence. }
+  destruct (v =? TF).
+  { destruct (_ =? 0); apply ET_same; [rewrite fp_update|]; cbn; congruence. }
+  destruct (v =? IDLE); apply ET_same; cbn [fst]; congruence.
+Qed.
+
+Lemma ET_timer s : ET s (timer_fire s).
+Proof.
+  unfold timer_fire. destruct (timer s); [|apply ET_same; reflexivity].
+  match goal with |- context [al_increment ?a] => pose proof (fp_incr a) as H5; destruct (al_increment a) as [s5 more] end.
+  cbn [fst] in H5. destruct more; [|apply ET_same; exact H5].
+  eapply (ET_weaken s s5); [exact H5|apply ET_request].
+Qed.
+
+Lemma ET_exit_idle s : ET s (exit_idle s).
+Proof.
+  unfold exit_idle. destruct (bstate s =? IDLE); [|apply ET_same; reflexivity].
+  destruct (update_state s CONNECTING (-1)) as [s1 e1].
+  pose proof (start_fp (set_list s1 (addrs s1) 0)) as Z. destruct (start_first_pass (set_list s1 (addrs s1) 0)) as [s2 e2].
+  intros F1 F2. cbn [fst snd] in *. rewrite tfp_app, (Z F1). apply orb_true_r.
+Qed.
+
+Lemma tf_step s op : tf_ok s (fst (step_main s op)) (snd (step_main s op)) = true.
+Proof.
+  assert (E : ET s (step_main s op)).
+  { unfold step_main.
+    destruct op as [|z r]; [apply ET_same; reflexivity|].
+    destruct z as [|q|q]; try (apply ET_same; reflexivity).
+    do 3 (try destruct q as [q|q|]); try (apply ET_same; reflexivity).
+    all: first [ apply ET_exit_idle | apply ET_timer | apply ET_resolver_update
+               | apply ET_same; apply fp_resolver_error
+               | destruct r as [|z [|v [|x r]]]; try (apply ET_same; reflexivity);
+                 destruct (sc_of s z); [|apply ET_same; reflexivity];
+                 destruct (_ && _); [apply ET_sc_state|apply ET_same; reflexivity] ]. }
+  unfold tf_ok. destruct (firstPass s) eqn:F1; [|reflexivity].
+  destruct (firstPass (fst (step_main s op))) eqn:F2; [reflexivity|].
+  cbn [negb andb orb]. exact (E F2 F1).
+Qed.
+
+(* ---------- clause 2: connection order ---------- *)
+
+(* events that connects_before_tf passes over: NewSubConn, Shutdown, a published state other
+   than TF, the result of UpdateClientConnState *)
+Inductive skip : list word -> Prop :=
+| sk_nil : skip []
+| sk_N sc a r : skip r -> skip (evN sc a :: r)
+| sk_S sc r : skip r -> skip (evS sc :: r)
+| sk_U v pk r : (v =? TF) = false -> skip r -> skip (evU v pk :: r)
+| sk_R x r : skip r -> skip ([12; x] :: r).
+
+Lemma cbt_skip a b : skip a -> connects_before_tf (a ++ b) = connects_before_tf b.
+Proof.
+  induction 1 as [|sc a r H IH|sc r H IH|v pk r Hv H IH|x r H IH]; cbn [app]; [reflexivity| | | |].
+  - change (connects_before_tf (evN sc a :: (r ++ b))) with (connects_before_tf (r ++ b)). exact IH.
+  - change (connects_before_tf (evS sc :: (r ++ b))) with (connects_before_tf (r ++ b)). exact IH.
+  - change (connects_before_tf (evU v pk :: (r ++ b))) with (if v =? TF then [] else connects_before_tf (r ++ b)).
+    rewrite Hv. exact IH.
+  - change (connects_before_tf ([12; x] :: (r ++ b))) with (connects_before_tf (r ++ b)). exact IH.
+Qed.
+Lemma cbt_skip_nil a : skip a -> connects_before_tf a = [].
+Proof. intros H. rewrite <- (app_nil_r a). rewrite (cbt_skip a [] H). reflexivity. Qed.
+Lemma skip_app a b : skip a -> skip b -> skip (a ++ b).
+Proof. induction 1; intros Hb; cbn [app]; [exact Hb| | | |]; constructor; auto. Qed.
+Lemma skip_S l : skip (map evS l).
+Proof. induction l; cbn [map]; constructor; assumption. Qed.
+Lemma skip_update s v pk : (v =? TF) = false -> skip (snd (update_state s v pk)).
+Proof. intros H. unfold update_state, force_state. destruct (_ && _); cbn [snd]; repeat constructor. exact H. Qed.
+
+(* nothing is connected before a TF publication: only passed-over events, or passed-over
+   events followed by a TF publication *)
+Inductive quiet : list word -> Prop :=
+| q_skip e : skip e -> quiet e
+| q_tf a pk b : skip a -> quiet (a ++ evU TF pk :: b).
+Lemma cbt_quiet e : quiet e -> connects_before_tf e = [].
+Proof. intros [e' H|a pk b H]; [apply cbt_skip_nil; exact H|rewrite (cbt_skip _ _ H); reflexivity]. Qed.
+Lemma quiet_pre pre e : skip pre -> quiet e -> quiet (pre ++ e).
+Proof.
+  intros P [e' H|a pk b H]; [apply q_skip, skip_app; assumption|].
+  rewrite app_assoc. apply q_tf. apply skip_app; assumption.
+Qed.
+Lemma quiet_post e post : quiet e -> skip post -> quiet (e ++ post).
+Proof.
+  intros [e' H|a pk b H] P; [apply q_skip, skip_app; assumption|].
+  rewrite <- app_assoc. cbn [app]. apply q_tf. exact H.
+Qed.
+Lemma quiet_update s v pk : quiet (snd (update_state s v pk)).
+Proof.
+  unfold update_state, force_state. destruct (_ && _); cbn [snd]; [apply q_skip; constructor|].
+  destruct (v =? TF) eqn:E.
+  - apply Z.eqb_eq in E. subst v. apply (q_tf [] pk []). constructor.
+  - apply q_skip. repeat constructor. exact E.
+Qed.
+
+(* SH s' e lo: if the pass flag is on in s', the events e contain no Connect before a TF
+   publication, or exactly one, to a sub-channel of the address the cursor points to in s',
+   and the cursor is at or after position lo *)
+Definition SH (s' : st) (e : list word) (lo : nat) : Prop :=
+  firstPass s' = true ->
+  quiet e \/ exists a sc b, e = a ++ evC sc :: b /\ skip a /\ quiet b /\ (sc < nsc s')%nat /\
+                            d_addr (sds s' sc) = cur_addr s' /\ (lo <= idx s')%nat.
+
+Lemma SH_quiet s' e lo : quiet e -> SH s' e lo.
+Proof. intros H _. left. exact H. Qed.
+Lemma SH_skip s' e lo : skip e -> SH s' e lo.
+Proof. intros H. apply SH_quiet, q_skip, H. Qed.
+Lemma SH_off s' e lo : firstPass s' = false -> SH s' e lo.
+Proof. intros H F. congruence. Qed.
+Lemma SH_wrap s' e lo pre post : skip pre -> skip post -> SH s' e lo -> SH s' (pre ++ e ++ post) lo.
+Proof.
+  intros P Q H F. destruct (H F) as [K|[a [sc [b [E [Ka [Kb R]]]]]]].
+  - left. apply quiet_pre; [exact P|]. apply quiet_post; assumption.
+  - right. exists (pre ++ a), sc, (b ++ post). subst e. split.
+    + rewrite <- !app_assoc. reflexivity.
+    + split; [apply skip_app; assumption|]. split; [apply quiet_post; assumption|exact R].
+Qed.
+Lemma SH_pre s' e lo pre : skip pre -> SH s' e lo -> SH s' (pre ++ e) lo.
+Proof. intros P H. rewrite <- (app_nil_r e). apply SH_wrap; [exact P|constructor|exact H]. Qed.
+Lemma SH_lo s' e lo lo' : (lo' <= lo)%nat -> SH s' e lo -> SH s' e lo'.
+Proof.
+  intros L H F. destruct (H F) as [K|[a [sc [b [E [Ka [Kb [R1 [R2 R3]]]]]]]]]; [left; exact K|].
+  right. exists a, sc, b. repeat split; try assumption. lia.
+Qed.
+
+Lemma sched_fields s : nsc (schedule_next s) = nsc s /\ sds (schedule_next s) = sds s /\
+  idx (schedule_next s) = idx s /\ addrs (schedule_next s) = addrs s.
+Proof. unfold schedule_next. destruct (al_has_next _); repeat split. Qed.
+Lemma cur_addr_eq s s' : idx s' = idx s -> addrs s' = addrs s -> cur_addr s' = cur_addr s.
+Proof. intros A B. unfold cur_addr, al_valid. rewrite A, B. reflexivity. Qed.
+
+Lemma efp_SH s lo : SH (fst (end_first_pass s)) (snd (end_first_pass s)) lo.
+Proof.
+  destruct (efp_cases s) as [E|[F _]]; [rewrite E; apply SH_skip; constructor|apply SH_off; exact F].
+Qed.
+
+Lemma req_SH fuel : forall s, Alive s -> al_valid s = true ->
+  SH (fst (req_loop fuel s)) (snd (req_loop fuel s)) (idx s).
+Proof.
+  induction fuel as [|f IH]; intros s A V; [apply SH_skip; constructor|]. cbn [req_loop].
+  assert (G : forall s1 sc e1, Alive s1 -> skip e1 -> al_valid s1 = true -> idx s1 = idx s ->
+    (sc < nsc s1)%nat -> d_addr (sds s1 sc) = cur_addr s1 ->
+    forall r, r = (if d_raw (sds s1 sc) =? IDLE then (schedule_next s1, e1 ++ [evC sc])
+     else if d_raw (sds s1 sc) =? TF
+          then let '(s3, more) := al_increment (upd_sd s1 sc (d_set_failed true)) in
+               if more then let '(s4, e4) := req_loop f s3 in (s4, e1 ++ e4)
+               else let '(s4, e4) := end_first_pass s3 in (s4, e1 ++ e4)
+          else if d_raw (sds s1 sc) =? CONNECTING then (schedule_next s1, e1) else (s1, e1)) ->
+    SH (fst r) (snd r) (idx s)).
+  { intros s1 sc e1 A1 K1 V1 I1 L1 D1 r Hr.
+    destruct (sched_fields s1) as [Sn [Ss [Si Sa]]].
+    destruct (d_raw (sds s1 sc) =? IDLE).
+    { subst r. cbn [fst snd]. intros _. right. exists e1, sc, []. repeat split; try assumption.
+      - apply q_skip. constructor.
+      - rewrite Sn. exact L1.
+      - rewrite Ss, (cur_addr_eq s1 _ Si Sa). exact D1.
+      - rewrite Si. lia. }
+    destruct (d_raw (sds s1 sc) =? TF).
+    { set (s2 := upd_sd s1 sc (d_set_failed true)) in *.
+      assert (A2 : Alive s2) by (eapply Alive_same; [apply sa_upd; reflexivity|exact A1]).
+      unfold al_increment in Hr. change (al_valid s2) with (al_valid s1) in Hr. rewrite V1 in Hr.
+      set (s3 := set_list s2 (addrs s2) (S (idx s2))) in *.
+      assert (A3 : Alive s3) by (eapply Alive_same; [apply sa_list|exact A2]).
+      assert (I3 : idx s3 = S (idx s)) by (cbn; rewrite <- I1; reflexivity).
+      destruct (al_valid s3) eqn:V3.
+      - pose proof (IH s3 A3 V3) as X. destruct (req_loop f s3) as [s4 e4]. subst r. cbn [fst snd] in *.
+        apply SH_pre; [exact K1|]. eapply SH_lo; [|exact X]. lia.
+      - pose proof (efp_SH s3 (idx s)) as X. destruct (end_first_pass s3) as [s4 e4]. subst r. cbn [fst snd] in *.
+        apply SH_pre; [exact K1|exact X]. }
+    destruct (d_raw (sds s1 sc) =? CONNECTING); subst r; cbn [fst snd]; apply SH_skip; exact K1. }
+  destruct (lookup s (cur_addr s)) as [sc|] eqn:LK.
+  - unfold lookup in LK. apply find_some in LK. destruct LK as [Hin Hd]. apply Z.eqb_eq in Hd.
+    destruct A as [A1 A2]. destruct (A1 sc Hin) as [Hlt _].
+    eapply (G s sc []); try reflexivity; try assumption; [split; assumption|constructor].
+  - apply (G (set_subs (set_sds s (fupd (sds s) (nsc s) (fun _ => mksd (cur_addr s) IDLE IDLE false false)) (S (nsc s))) (subs s ++ [nsc s]))
+             (nsc s) [evN (nsc s) (cur_addr s)]).
+    + apply Alive_create. exact A.
+    + repeat constructor.
+    + exact V.
+    + reflexivity.
+    + cbn. lia.
+    + cbn. unfold fupd. rewrite Nat.eqb_refl. reflexivity.
+    + reflexivity.
+Qed.
+
+Lemma request_SH s : Alive s -> SH (fst (request_connection s)) (snd (request_connection s)) (idx s).
+Proof.
+  intros A. unfold request_connection. destruct (al_valid s) eqn:V; [apply req_SH; assumption|apply SH_skip; constructor].
+Qed.
+
+Lemma start_SH s : Alive s -> SH (fst (start_first_pass s)) (snd (start_first_pass s)) 0.
+Proof.
+  intros A. unfold start_first_pass. eapply SH_lo; [|apply request_SH]; [lia|].
+  eapply Alive_same; [|exact A]. sa. intros sc. destruct (existsb _ _); reflexivity.
+Qed.
+
+Lemma SH_post s' e lo post : skip post -> SH s' e lo -> SH s' (e ++ post) lo.
+Proof. intros P H. change (e ++ post) with ([] ++ e ++ post). apply SH_wrap; [constructor|exact P|exact H]. Qed.
+
+Lemma incr_more s : snd (al_increment s) = true -> idx (fst (al_increment s)) = S (idx s).
+Proof. unfold al_increment. destruct (al_valid s); [reflexivity|discriminate]. Qed.
+
+Lemma resolver_error_quiet s : quiet (snd (resolver_error s)).
+Proof. unfold resolver_error. destruct (_ && _); [apply q_skip; constructor|apply quiet_update]. Qed.
+
+Lemma resolver_update_SH s l0 : Alive s -> SH (fst (resolver_update s l0)) (snd (resolver_update s l0)) 0.
+Proof.
+  intros A. unfold resolver_update.
+  pose proof (Alive_same _ _ (sa_timer s false) A) as A0. fold (cancel_timer s) in A0.
+  destruct (filter valid_addr l0) as [|a l1].
+  - cbn [shutdown_all].
+    match goal with |- context [resolver_error ?x] => pose proof (resolver_error_quiet x) as Y; destruct (resolver_error x) as [s3 e3] end.
+    cbn [fst snd] in *. apply SH_quiet. apply quiet_pre; [apply skip_S|]. apply quiet_post; [exact Y|repeat constructor].
+  - set (l' := preprocess (a :: l1)). set (s1 := set_list (cancel_timer s) l' 0).
+    assert (A1 : Alive s1) by (exact (Alive_same _ _ (sa_list _ _ _) A0)).
+    assert (A3 : Alive (set_subs (fst (shutdown_all s1 (filter (fun sc => negb (memz (d_addr (sds s1 sc)) l')) (subs s1))))
+                                 (filter (fun sc => memz (d_addr (sds s1 sc)) l') (subs s1)))).
+    { apply (Alive_shutdown s1 _ _ A1).
+      - intros sc H. destruct (memz (d_addr (sds s1 sc)) l') eqn:M; [right|left]; apply filter_In; split; try assumption.
+        rewrite M. reflexivity.
+      - intros sc H. apply filter_In in H. destruct H as [H M]. split; [exact H|]. intros F. apply filter_In in F.
+        destruct F as [_ F]. rewrite M in F. discriminate. }
+    assert (G : forall (pr : bool) sk (kept : bool), SH (fst (
+       if kept then (sk, [[12; 0]])
+       else let '(s2, e2) := shutdown_all s1 (filter (fun sc => negb (memz (d_addr (sds s1 sc)) l')) (subs s1)) in
+            let s3 := set_subs s2 (filter (fun sc => memz (d_addr (sds s1 sc)) l') (subs s1)) in
+            if pr || (bstate s3 =? CONNECTING) || (length (addrs (cancel_timer s)) =? 0)%nat
+            then let '(s4, e4) := force_state s3 CONNECTING (-1) in
+                 let '(s5, e5) := start_first_pass s4 in (s5, e2 ++ e4 ++ e5 ++ [[12; 0]])
+            else if bstate s3 =? TF then let '(s5, e5) := start_first_pass s3 in (s5, e2 ++ e5 ++ [[12; 0]])
+                 else (s3, e2 ++ [[12; 0]]))) (snd (
+       if kept then (sk, [[12; 0]])
+       else let '(s2, e2) := shutdown_all s1 (filter (fun sc => negb (memz (d_addr (sds s1 sc)) l')) (subs s1)) in
+            let s3 := set_subs s2 (filter (fun sc => memz (d_addr (sds s1 sc)) l') (subs s1)) in
+            if pr || (bstate s3 =? CONNECTING) || (length (addrs (cancel_timer s)) =? 0)%nat
+            then let '(s4, e4) := force_state s3 CONNECTING (-1) in
+                 let '(s5, e5) := start_first_pass s4 in (s5, e2 ++ e4 ++ e5 ++ [[12; 0]])
+            else if bstate s3 =? TF then let '(s5, e5) := start_first_pass s3 in (s5, e2 ++ e5 ++ [[12; 0]])
+                 else (s3, e2 ++ [[12; 0]]))) 0).
+    { intros pr sk kept. destruct kept; [apply SH_skip; repeat constructor|]. cbn [shutdown_all] in *. cbv beta iota zeta.
+      match goal with |- context [if ?c then _ else _] => destruct c end.
+      - unfold force_state.
+        match goal with |- context [start_first_pass ?x] =>
+          assert (AX : Alive x) by exact (Alive_same _ _ (sa_force _ CONNECTING (-1)) A3);
+          pose proof (start_SH x AX) as Z; destruct (start_first_pass x) as [s5 e5] end.
+        cbn [fst snd] in *. apply SH_pre; [apply skip_S|]. apply SH_wrap; [repeat constructor|repeat constructor|exact Z].
+      - match goal with |- context [if ?c then _ else _] => destruct c end.
+        + match goal with |- context [start_first_pass ?x] =>
+            assert (AX : Alive x) by exact A3;
+            pose proof (start_SH x AX) as Z; destruct (start_first_pass x) as [s5 e5] end.
+          cbn [fst snd] in *. apply SH_pre; [apply skip_S|]. apply SH_post; [repeat constructor|exact Z].
+        + cbn [fst snd]. apply SH_skip. apply skip_app; [apply skip_S|repeat constructor]. }
+    destruct (match lookup (cancel_timer s) (cur_addr (cancel_timer s)) with
+              | Some sc => d_raw (sds (cancel_timer s) sc) =? READY | None => false end).
+    + destruct (al_seek s1 (cur_addr (cancel_timer s))) as [sk kept]. apply (G true sk kept).
+    + apply (G false s1 false).
+Qed.
+
+Lemma sc_state_SH s sc v : Alive s -> SH (fst (sc_state s sc v)) (snd (sc_state s sc v)) (S (idx s)).
+Proof.
+  intros A. unfold sc_state. set (s1 := upd_sd s sc (d_set_raw v)).
+  assert (A1 : Alive s1) by (exact (Alive_same _ _ (sa_upd s sc (d_set_raw v) (fun d => eq_refl)) A)).
+  destruct (negb (is_active s1 sc)); [apply SH_skip; constructor|].
+  destruct (v =? SHUTDOWN); [apply SH_skip; constructor|].
+  set (s2 := if v =? TF then upd_sd s1 sc (d_set_failed true) else s1).
+  assert (A2 : Alive s2).
+  { unfold s2; destruct (v =? TF); [eapply Alive_same; [apply sa_upd; reflexivity|exact A1]|exact A1]. }
+  assert (I2 : idx s2 = idx s) by (unfold s2; destruct (v =? TF); reflexivity).
+  destruct (v =? READY).
+  { unfold shutdown_remaining. cbn [shutdown_all].
+    match goal with |- context [al_seek ?a ?b] => destruct (al_seek a b) as [s4 found] end.
+    destruct found; cbn [negb]; [|apply SH_skip, skip_S].
+    match goal with |- context [update_state ?a READY ?b] => pose proof (quiet_update a READY b) as Y; destruct (update_state a READY b) end.
+    cbn [fst snd] in *. apply SH_quiet. apply quiet_pre; [apply skip_S|exact Y]. }
+  destruct (_ || _).
+  { unfold shutdown_remaining. cbn [shutdown_all].
+    match goal with |- context [update_state ?a IDLE ?b] => pose proof (quiet_update a IDLE b) as Y; destruct (update_state a IDLE b) end.
+    cbn [fst snd] in *. apply SH_quiet. apply quiet_pre; [apply skip_S|exact Y]. }
+  destruct (firstPass s2) eqn:FP2.
+  { destruct (v =? CONNECTING).
+    - destruct (negb (d_eff (sds s2 sc) =? TF)); [|apply SH_skip; constructor].
+      destruct (negb (bstate _ =? TF)); [|apply SH_skip; constructor]. apply SH_quiet, quiet_update.
+    - destruct (v =? TF); [|apply SH_skip; constructor].
+      destruct (cur_addr _ =? _).
+      + match goal with |- context [al_increment ?a] =>
+          assert (A4 : Alive a) by (eapply Alive_same; [apply sa_timer|]; eapply Alive_same; [apply sa_upd; reflexivity|exact A2]);
+          pose proof (incr_more a) as IM; pose proof (Alive_same _ _ (sa_incr a) A4) as A5;
+          destruct (al_increment a) as [s5 more] end.
+        cbn [fst snd] in *. destruct more.
+        * eapply SH_lo; [|apply request_SH; exact A5]. rewrite (IM eq_refl). cbn. lia.
+        * apply efp_SH.
+      + apply efp_SH. }
+  destruct (v =? TF).
+  { destruct (_ =? 0); [apply SH_quiet, quiet_update|apply SH_skip; constructor]. }
+  destruct (v =? IDLE); [apply SH_off; exact FP2|apply SH_skip; constructor].
+Qed.
+
+Lemma timer_SH s : Alive s -> SH (fst (timer_fire s)) (snd (timer_fire s)) (S (idx s)).
+Proof.
+  intros A. unfold timer_fire. destruct (timer s); [|apply SH_skip; constructor].
+  match goal with |- context [al_increment ?a] =>
+    assert (A4 : Alive a) by (eapply Alive_same; [apply sa_timer|exact A]);
+    pose proof (incr_more a) as IM; pose proof (Alive_same _ _ (sa_incr a) A4) as A5;
+    destruct (al_increment a) as [s5 more] end.
+  cbn [fst snd] in *. destruct more; [|apply SH_skip; constructor].
+  eapply SH_lo; [|apply request_SH; exact A5]. rewrite (IM eq_refl). cbn. lia.
+Qed.
+
+Lemma exit_idle_SH s : Alive s -> bstate s = IDLE -> SH (fst (exit_idle s)) (snd (exit_idle s)) 0.
+Proof.
+  intros A B. unfold exit_idle. rewrite B. cbn [Z.eqb IDLE Pos.eqb].
+  pose proof (Alive_same _ _ (sa_update s CONNECTING (-1)) A) as A1.
+  pose proof (skip_update s CONNECTING (-1) eq_refl) as K.
+  destruct (update_state s CONNECTING (-1)) as [s1 e1]. cbn [fst snd] in *.
+  pose proof (start_SH _ (Alive_same _ _ (sa_list s1 (addrs s1) 0) A1)) as Z. destruct (start_first_pass (set_list s1 (addrs s1) 0)) as [s2 e2]. cbn [fst snd] in *.
+  apply SH_pre; assumption.
+Qed.
+
+Lemma SH_order s s' op e lo : SH s' e lo -> (is_start s op = true \/ (idx s < lo)%nat) ->
+  order_ok s s' op e = true.
+Proof.
+  intros H X. unfold order_ok. destruct (firstPass s') eqn:F; [|reflexivity].
+  destruct (H F) as [K|[a [sc [b [E [Ka [Kb [R1 [R2 R3]]]]]]]]].
+  - rewrite (cbt_quiet _ K). apply orb_true_r.
+  - subst e. rewrite (cbt_skip _ _ Ka).
+    change (connects_before_tf (evC sc :: b)) with (zn sc :: connects_before_tf b).
+    rewrite (cbt_quiet _ Kb), (sc_of_zn s' sc R1), R2, Z.eqb_refl. cbn [andb].
+    apply orb_true_iff. right. destruct X as [X|X]; [rewrite X; reflexivity|].
+    replace (idx s <? idx s')%nat with true by (symmetry; apply Nat.ltb_lt; lia).
+    rewrite orb_true_r. reflexivity.
+Qed.
+
+Lemma order_step s op : Alive s -> order_ok s (fst (step_main s op)) op (snd (step_main s op)) = true.
+Proof.
+  intros A.
+  assert (N : forall lo, SH s [] lo) by (intros lo; apply SH_skip; constructor).
+  unfold step_main.
+  destruct op as [|z r]; [apply (SH_order _ _ _ _ (S (idx s)) (N _)); right; lia|].
+  destruct z as [|q|q]; try (apply (SH_order _ _ _ _ (S (idx s)) (N _)); right; lia).
+  do 3 (try destruct q as [q|q|]); try (apply (SH_order _ _ _ _ (S (idx s)) (N _)); right; lia).
+  all: match goal with
+       | |- context [exit_idle ?x] =>
+         destruct (Z.eqb_spec (bstate s) IDLE) as [B|B];
+         [ apply (SH_order _ _ _ _ 0 (exit_idle_SH s A B)); left; cbn; rewrite B; reflexivity
+         | unfold exit_idle; rewrite (proj2 (Z.eqb_neq _ _) B); apply (SH_order _ _ _ _ (S (idx s)) (N _)); right; lia ]
+       | |- context [timer_fire ?x] => apply (SH_order _ _ _ _ (S (idx s)) (timer_SH s A)); right; lia
+       | |- context [resolver_error ?x] =>
+         apply (SH_order _ _ _ _ (S (idx s))); [apply SH_quiet, resolver_error_quiet|right; lia]
+       | |- context [resolver_update ?x ?l] => apply (SH_order _ _ _ _ 0 (resolver_update_SH s l A)); left; reflexivity
+       | |- _ => idtac
+       end.
+  destruct r as [|z [|v [|x r]]]; try (apply (SH_order _ _ _ _ (S (idx s)) (N _)); right; lia).
+  destruct (sc_of s z) as [n|]; [|apply (SH_order _ _ _ _ (S (idx s)) (N _)); right; lia].
+  destruct (_ && _); [|apply (SH_order _ _ _ _ (S (idx s)) (N _)); right; lia].
+  apply (SH_order _ _ _ _ (S (idx s)) (sc_state_SH s n v A)). right. lia.
 Qed.
 
 Definition Inv (s : st) : Prop := Alive s /\ J1 s.
@@ -1108,10 +1606,10 @@ Proof. unfold step. destruct (step_main s op). reflexivity. Qed.
 Lemma step_snd s op : snd (step s op) = snd (step_main s op) ++ [[0]].
 Proof. unfold step. destruct (step_main s op). reflexivity. Qed.
 
-Definition ok14 (c : Z * Z * bool) : bool := (fst (fst c) =? 2) || (fst (fst c) =? 3) || snd c.
+Definition okp (c : Z * Z * bool) : bool := (fst (fst c) =? 5) || snd c.
 
 Lemma clauses_from_ok ops : forall s i, Inv s ->
-  forallb ok14 (clauses_from s ops (snd (run_from s ops)) i) = true.
+  forallb okp (clauses_from s ops (snd (run_from s ops)) i) = true.
 Proof.
   induction ops as [|op r IH]; intros s i I; [reflexivity|].
   cbn [run_from clauses_from].
@@ -1120,14 +1618,14 @@ Proof.
   destruct (step s op) as [s1 e]. cbn [fst snd] in *. subst e.
   specialize (IH s1 (i + 1) I1). destruct (run_from s1 r) as [s2 e']. cbn [snd] in *.
   rewrite <- app_assoc. cbn [app]. rewrite (split_chunk_app _ _ (nzl_step_main s op)).
-  rewrite forallb_app, IH, andb_true_r. unfold clause_op. cbn [forallb ok14 fst snd].
-  destruct I as [A J]. rewrite (ready_step s op A), (sticky_step s op J). reflexivity.
+  rewrite forallb_app, IH, andb_true_r. unfold clause_op. cbn [forallb okp fst snd].
+  destruct I as [A J]. rewrite (ready_step s op A), (order_step s op A), (tf_step s op), (sticky_step s op J). reflexivity.
 Qed.
 
-Theorem model_trace_holds ops : exists obs, run ops = Some obs /\ holds_1_4 ops obs = true.
+Theorem model_trace_holds ops : exists obs, run ops = Some obs /\ holds_proved ops obs = true.
 Proof.
   exists (snd (run_from init ops)). split; [reflexivity|].
-  unfold holds_1_4, clauses. apply (clauses_from_ok ops init 0 Inv_init).
+  unfold holds_proved, clauses. apply (clauses_from_ok ops init 0 Inv_init).
 Qed.
 
 (* ---------- readable statements ---------- *)
@@ -1200,3 +1698,274 @@ Qed.
    publication clears it *)
 Lemma sticky_means_tf s : reachable s -> sticky s = true -> bstate s = TF.
 Proof. intros R. exact (proj2 (reachable_inv s R)). Qed.
+
+(* ---------- connection order, readable ---------- *)
+
+(* In every reachable state, whatever the next operation: if a pass is running after it and
+   was running before it or the operation is one that (re)starts passes, then before any TF
+   publication the operation calls Connect at most once, on a sub-channel of the address the
+   cursor of the (de-duplicated, interleaved) list points to, and unless the pass was
+   (re)started the cursor has moved strictly forward *)
+Lemma order_readable s op : reachable s ->
+  firstPass (fst (step_main s op)) = true -> (firstPass s = true \/ is_start s op = true) ->
+  connects_before_tf (snd (step_main s op)) = [] \/
+  exists sc, connects_before_tf (snd (step_main s op)) = [zn sc] /\ (sc < nsc (fst (step_main s op)))%nat /\
+     d_addr (sds (fst (step_main s op)) sc) = cur_addr (fst (step_main s op)) /\
+     (is_start s op = true \/ (idx s < idx (fst (step_main s op)))%nat).
+Proof.
+  intros R F X. pose proof (order_step s op (reachable_alive s R)) as H. unfold order_ok in H.
+  rewrite F in H. replace (firstPass s || is_start s op) with true in H
+    by (destruct X as [X|X]; rewrite X; [reflexivity|rewrite orb_true_r; reflexivity]).
+  cbn [andb negb orb] in H.
+  destruct (connects_before_tf (snd (step_main s op))) as [|z [|z' l]]; [left; reflexivity| |discriminate H].
+  right. destruct (sc_of (fst (step_main s op)) z) as [sc|] eqn:E; [|discriminate H].
+  apply sc_of_spec in E. destruct E as [Hlt ->]. apply andb_true_iff in H. destruct H as [H1 H2].
+  apply Z.eqb_eq in H1. exists sc. repeat split; try assumption.
+  apply orb_true_iff in H2. destruct H2 as [H2|H2].
+  - apply orb_true_iff in H2. destruct H2 as [H2|H2]; [left; exact H2|right; apply Nat.ltb_lt; exact H2].
+  - destruct X as [X|X]; [rewrite X in H2; discriminate H2|left; exact X].
+Qed.
+
+(* ---------- TF after all failed, readable ---------- *)
+
+(* endFirstPassIfPossibleLocked with the list exhausted and every active sub-channel marked
+   as failed ends the pass and publishes TF *)
+Lemma efp_spec s : al_valid s = false -> forallb (fun sc => d_failed (sds s sc)) (subs s) = true ->
+  firstPass (fst (end_first_pass s)) = false /\ tf_published (snd (end_first_pass s)) = true /\
+  bstate (fst (end_first_pass s)) = TF.
+Proof.
+  intros V F. unfold end_first_pass. rewrite V, F.
+  pose proof (update_tf_published (set_pass s false (numTF s)) (-1)) as T.
+  pose proof (fp_update (set_pass s false (numTF s)) TF (-1)) as P.
+  assert (B : bstate (fst (update_state (set_pass s false (numTF s)) TF (-1))) = TF).
+  { unfold update_state.
+    replace ((TF =? bstate (set_pass s false (numTF s))) && negb (bstate (set_pass s false (numTF s)) =? TF)) with false; [reflexivity|].
+    cbn [bstate set_pass]. destruct (Z.eqb_spec (bstate s) TF) as [->|N]; [reflexivity|].
+    rewrite (proj2 (Z.eqb_neq TF (bstate s))); [reflexivity|congruence]. }
+  destruct (update_state (set_pass s false (numTF s)) TF (-1)) as [s2 e]. cbn [fst snd] in *.
+  repeat split; [exact P| |exact B]. rewrite tfp_app, T. reflexivity.
+Qed.
+
+(* a first pass ends - in any state, by any operation - only by publishing TF *)
+Lemma pass_ends_with_tf s op : firstPass s = true -> firstPass (fst (step_main s op)) = false ->
+  exists pk, In (TF, pk) (u_events (snd (step_main s op))).
+Proof.
+  intros F1 F2. pose proof (tf_step s op) as H. unfold tf_ok in H. rewrite F1, F2 in H.
+  cbn [negb andb orb] in H. unfold tf_published in H. apply existsb_exists in H.
+  destruct H as [[v pk] [Hin Hv]]. cbn [fst] in Hv. apply Z.eqb_eq in Hv. subst v. exists pk. exact Hin.
+Qed.
+
+(* ---------- a pass started by ExitIdle after the cursor moved while IDLE (repaired by 5362b94) ---------- *)
+
+(* update [a; b]; sc0 CONNECTING then IDLE (IDLE is published, cursor reset to 0); sc0 reports
+   TRANSIENT_FAILURE (cursor -> 1, sc1 is created and connected); ExitIdle resets the cursor and
+   restarts the pass: sc0 (still in TF) is marked as failed again, sc1 is connected; sc1 fails:
+   the pass ends, TRANSIENT_FAILURE is published, and later IDLE reports are re-connected.
+   (Before 5362b94 ExitIdle kept the cursor at 1: sc0's mark was cleared and never set again,
+   nothing was published after sc1 failed and no Connect was ever issued again.) *)
+Definition midstart_prefix : list word := [[1; 1001; 1002]; [2; 0; 1]; [2; 0; 0]; [2; 0; 3]; [6]].
+Lemma exit_idle_restart_witness :
+  let s := fst (run_from init midstart_prefix) in
+  let s' := fst (step_main s [2; 1; 3]) in
+  idx s = 1%nat /\ midstart s = false /\ firstPass s = true /\
+  snd (step_main s [2; 1; 3]) = [[1; 3; -1]] /\ firstPass s' = false /\ bstate s' = TF /\ all_failed s' = true /\
+  snd (step_main s' [2; 0; 0]) = [[3; 0]] /\ snd (step_main s' [2; 1; 0]) = [[3; 1]].
+Proof. vm_compute. repeat split; reflexivity. Qed.
+
+(* ---------- the cursor only moves forward; the list has no duplicates ---------- *)
+
+Definition LS (s s' : st) : Prop := addrs s' = addrs s /\ (idx s <= idx s')%nat.
+Lemma LS_refl s : LS s s. Proof. split; [reflexivity|lia]. Qed.
+Lemma LS_trans a b c : LS a b -> LS b c -> LS a c.
+Proof. intros [A1 A2] [B1 B2]. split; [congruence|lia]. Qed.
+Lemma LS_eq s s' : addrs s' = addrs s -> idx s' = idx s -> LS s s'.
+Proof. intros A B. split; [exact A|lia]. Qed.
+
+Lemma list_update s v pk : addrs (fst (update_state s v pk)) = addrs s /\ idx (fst (update_state s v pk)) = idx s.
+Proof. unfold update_state, force_state. destruct (_ && _); split; reflexivity. Qed.
+Lemma bstate_update s v pk : bstate (fst (update_state s v pk)) = v.
+Proof.
+  unfold update_state, force_state. destruct ((v =? bstate s) && negb (bstate s =? TF)) eqn:E; [|reflexivity].
+  apply andb_true_iff in E. destruct E as [E _]. apply Z.eqb_eq in E. cbn. congruence.
+Qed.
+Lemma LS_efp s : LS s (fst (end_first_pass s)).
+Proof.
+  unfold end_first_pass. destruct (al_valid s); [apply LS_refl|]. destruct (forallb _ _); [|apply LS_refl].
+  pose proof (list_update (set_pass s false (numTF s)) TF (-1)) as [A B].
+  destruct (update_state (set_pass s false (numTF s)) TF (-1)) as [s2 e]. cbn [fst] in *. apply LS_eq; assumption.
+Qed.
+Lemma LS_sched s : LS s (schedule_next s).
+Proof. destruct (sched_fields s) as [_ [_ [I A]]]. apply LS_eq; assumption. Qed.
+Lemma LS_incr s : LS s (fst (al_increment s)).
+Proof. unfold al_increment. destruct (al_valid s); [split; [reflexivity|cbn; lia]|apply LS_refl]. Qed.
+
+Lemma LS_req fuel : forall s, LS s (fst (req_loop fuel s)).
+Proof.
+  induction fuel as [|f IH]; intros s; [apply LS_refl|]. cbn [req_loop].
+  assert (G : forall s1 sc e1, LS s s1 ->
+    LS s (fst (if d_raw (sds s1 sc) =? IDLE then (schedule_next s1, e1 ++ [evC sc])
+     else if d_raw (sds s1 sc) =? TF
+          then let '(s3, more) := al_increment (upd_sd s1 sc (d_set_failed true)) in
+               if more then let '(s4, e4) := req_loop f s3 in (s4, e1 ++ e4)
+               else let '(s4, e4) := end_first_pass s3 in (s4, e1 ++ e4)
+          else if d_raw (sds s1 sc) =? CONNECTING then (schedule_next s1, e1) else (s1, e1)))).
+  { intros s1 sc e1 H1.
+    destruct (d_raw (sds s1 sc) =? IDLE); [exact (LS_trans _ _ _ H1 (LS_sched s1))|].
+    destruct (d_raw (sds s1 sc) =? TF).
+    - assert (H2 : LS s (fst (al_increment (upd_sd s1 sc (d_set_failed true)))))
+        by (eapply LS_trans; [exact H1|]; exact (LS_incr (upd_sd s1 sc (d_set_failed true)))).
+      destruct (al_increment _) as [s3 more]. cbn [fst] in H2. destruct more.
+      + specialize (IH s3). destruct (req_loop f s3). exact (LS_trans _ _ _ H2 IH).
+      + pose proof (LS_efp s3) as X. destruct (end_first_pass s3). exact (LS_trans _ _ _ H2 X).
+    - destruct (d_raw (sds s1 sc) =? CONNECTING); [exact (LS_trans _ _ _ H1 (LS_sched s1))|exact H1]. }
+  destruct (lookup s (cur_addr s)) as [sc|]; apply G; apply LS_eq; reflexivity.
+Qed.
+Lemma LS_request s : LS s (fst (request_connection s)).
+Proof. unfold request_connection. destruct (al_valid s); [apply LS_req|apply LS_refl]. Qed.
+Lemma LS_start s : LS s (fst (start_first_pass s)).
+Proof. unfold start_first_pass. eapply LS_trans; [|apply LS_request]. apply LS_eq; reflexivity. Qed.
+Lemma LS_resolver_error s : LS s (fst (resolver_error s)).
+Proof.
+  unfold resolver_error. destruct (_ && _); [apply LS_refl|].
+  destruct (list_update s TF (-1)). apply LS_eq; assumption.
+Qed.
+Lemma LS_timer s : LS s (fst (timer_fire s)).
+Proof.
+  unfold timer_fire. destruct (timer s); [|apply LS_refl].
+  pose proof (LS_incr (set_timer s false)) as H. destruct (al_increment _) as [s2 more]. cbn [fst] in H.
+  assert (H' : LS s s2) by (destruct H as [A B]; split; [exact A|exact B]).
+  destruct more; [exact (LS_trans _ _ _ H' (LS_request s2))|exact H'].
+Qed.
+Lemma exit_idle_list s : addrs (fst (exit_idle s)) = addrs s /\ (bstate s <> IDLE -> fst (exit_idle s) = s).
+Proof.
+  unfold exit_idle. destruct (Z.eqb_spec (bstate s) IDLE) as [B|B]; [|split; [reflexivity|intros _; reflexivity]].
+  split; [|intros N; contradiction].
+  destruct (list_update s CONNECTING (-1)) as [A _]. destruct (update_state s CONNECTING (-1)) as [s1 e1]. cbn [fst] in *.
+  pose proof (LS_start (set_list s1 (addrs s1) 0)) as [X _]. destruct (start_first_pass (set_list s1 (addrs s1) 0)) as [s2 e2].
+  cbn [fst] in *. rewrite X. exact A.
+Qed.
+
+Lemma seek_list s a : addrs (fst (al_seek s a)) = addrs s /\ (snd (al_seek s a) = false -> fst (al_seek s a) = s).
+Proof. unfold al_seek. destruct (index_of a (addrs s)); split; try reflexivity. discriminate. Qed.
+
+Lemma sc_state_list s sc v :
+  addrs (fst (sc_state s sc v)) = addrs s /\
+  ((idx s <= idx (fst (sc_state s sc v)))%nat \/ bstate (fst (sc_state s sc v)) = READY \/ bstate (fst (sc_state s sc v)) = IDLE).
+Proof.
+  assert (W : forall s', LS s s' -> addrs s' = addrs s /\ ((idx s <= idx s')%nat \/ bstate s' = READY \/ bstate s' = IDLE))
+    by (intros s' [A B]; split; [exact A|left; exact B]).
+  unfold sc_state. set (s1 := upd_sd s sc (d_set_raw v)).
+  destruct (negb (is_active s1 sc)); [apply W, LS_eq; reflexivity|].
+  destruct (v =? SHUTDOWN); [apply W, LS_eq; reflexivity|].
+  set (s2 := if v =? TF then upd_sd s1 sc (d_set_failed true) else s1).
+  assert (L2 : LS s s2) by (unfold s2; destruct (v =? TF); apply LS_eq; reflexivity).
+  destruct (v =? READY).
+  { unfold shutdown_remaining. cbn [shutdown_all].
+    match goal with |- context [al_seek ?a ?b] => pose proof (seek_list a b) as [K1 K2]; destruct (al_seek a b) as [s4 found] end.
+    cbn [fst snd] in *. destruct found; cbn [negb].
+    - match goal with |- context [update_state ?a READY ?b] =>
+        pose proof (list_update a READY b) as [U1 U2]; pose proof (bstate_update a READY b) as U3; destruct (update_state a READY b) as [s5 e5] end.
+      cbn [fst] in *. split; [|right; left; exact U3]. rewrite U1. cbn. rewrite K1. cbn. exact (proj1 L2).
+    - rewrite (K2 eq_refl). apply W. cbn. destruct L2 as [A B]. split; [exact A|exact B]. }
+  destruct (_ || _).
+  { unfold shutdown_remaining. cbn [shutdown_all].
+    match goal with |- context [update_state ?a IDLE ?b] =>
+      pose proof (list_update a IDLE b) as [U1 U2]; pose proof (bstate_update a IDLE b) as U3; destruct (update_state a IDLE b) as [s5 e5] end.
+    cbn [fst] in *. split; [|right; right; exact U3]. rewrite U1. cbn. exact (proj1 L2). }
+  destruct (firstPass s2).
+  { destruct (v =? CONNECTING).
+    - destruct (negb (d_eff (sds s2 sc) =? TF)); [|apply W; exact L2].
+      destruct (negb (bstate _ =? TF)); [|apply W; destruct L2 as [A B]; split; [exact A|exact B]].
+      apply W. match goal with |- context [update_state ?a CONNECTING ?b] => destruct (list_update a CONNECTING b) as [U1 U2] end.
+      eapply LS_trans; [exact L2|]. apply LS_eq; [rewrite U1|rewrite U2]; reflexivity.
+    - destruct (v =? TF); [|apply W; exact L2].
+      apply W. eapply LS_trans; [exact L2|].
+      destruct (cur_addr _ =? _).
+      + match goal with |- context [al_increment ?a] => pose proof (LS_incr a) as H5; destruct (al_increment a) as [s5 more] end.
+        cbn [fst] in H5. assert (H5' : LS s2 s5) by (destruct H5 as [A B]; split; [exact A|exact B]).
+        destruct more; [exact (LS_trans _ _ _ H5' (LS_request s5))|exact (LS_trans _ _ _ H5' (LS_efp s5))].
+      + eapply LS_trans; [|apply LS_efp]. apply LS_eq; reflexivity. }
+  destruct (v =? TF).
+  { apply W. eapply LS_trans; [exact L2|]. destruct (_ =? 0); [|apply LS_eq; reflexivity].
+    match goal with |- context [update_state ?a TF ?b] => destruct (list_update a TF b) as [U1 U2] end.
+    apply LS_eq; [rewrite U1|rewrite U2]; reflexivity. }
+  destruct (v =? IDLE); apply W; exact L2.
+Qed.
+
+(* unless the operation (re)starts the pass (resolver update, ExitIdle in IDLE) the address list
+   is unchanged and the cursor only moves forward, until a sub-channel becomes READY (seekTo) or
+   an established connection is lost (IDLE is published, reset) *)
+Lemma cursor_monotone s op : is_start s op = false ->
+  addrs (fst (step_main s op)) = addrs s /\
+  ((idx s <= idx (fst (step_main s op)))%nat \/ bstate (fst (step_main s op)) = READY \/ bstate (fst (step_main s op)) = IDLE).
+Proof.
+  intros NU.
+  assert (W : forall s', LS s s' -> addrs s' = addrs s /\ ((idx s <= idx s')%nat \/ bstate s' = READY \/ bstate s' = IDLE))
+    by (intros s' [A B]; split; [exact A|left; exact B]).
+  unfold step_main.
+  destruct op as [|z r]; [apply W, LS_refl|].
+  destruct z as [|q|q]; try (apply W, LS_refl).
+  do 3 (try destruct q as [q|q|]); try (apply W, LS_refl).
+  all: match goal with
+       | |- context [exit_idle ?x] =>
+         cbn in NU; apply Z.eqb_neq in NU; rewrite (proj2 (exit_idle_list s) NU); apply W, LS_refl
+       | |- context [timer_fire ?x] => apply W, LS_timer
+       | |- context [resolver_error ?x] => apply W, LS_resolver_error
+       | |- context [resolver_update ?x ?l] => discriminate NU
+       | |- _ => idtac
+       end.
+  destruct r as [|z [|v [|x r]]]; try (apply W, LS_refl).
+  destruct (sc_of s z) as [n|]; [|apply W, LS_refl].
+  destruct (_ && _); [apply sc_state_list|apply W, LS_refl].
+Qed.
+
+Lemma resolver_update_addrs s l0 :
+  addrs (fst (resolver_update s l0)) = match filter valid_addr l0 with [] => [] | l => preprocess l end.
+Proof.
+  unfold resolver_update. destruct (filter valid_addr l0) as [|a l1].
+  - cbn [shutdown_all].
+    match goal with |- context [resolver_error ?x] => pose proof (LS_resolver_error x) as [Y _]; destruct (resolver_error x) as [s3 e3] end.
+    cbn [fst] in *. rewrite Y. reflexivity.
+  - set (l' := preprocess (a :: l1)). set (s1 := set_list (cancel_timer s) l' 0).
+    assert (G : forall (pr : bool) sk (kept : bool), addrs sk = l' -> addrs (fst (
+       if kept then (sk, [[12; 0]])
+       else let '(s2, e2) := shutdown_all s1 (filter (fun sc => negb (memz (d_addr (sds s1 sc)) l')) (subs s1)) in
+            let s3 := set_subs s2 (filter (fun sc => memz (d_addr (sds s1 sc)) l') (subs s1)) in
+            if pr || (bstate s3 =? CONNECTING) || (length (addrs (cancel_timer s)) =? 0)%nat
+            then let '(s4, e4) := force_state s3 CONNECTING (-1) in
+                 let '(s5, e5) := start_first_pass s4 in (s5, e2 ++ e4 ++ e5 ++ [[12; 0]])
+            else if bstate s3 =? TF then let '(s5, e5) := start_first_pass s3 in (s5, e2 ++ e5 ++ [[12; 0]])
+                 else (s3, e2 ++ [[12; 0]]))) = l').
+    { intros pr sk kept Hk. destruct kept; [exact Hk|]. cbn [shutdown_all]. cbv beta iota zeta.
+      match goal with |- context [if ?c then _ else _] => destruct c end.
+      - unfold force_state.
+        match goal with |- context [start_first_pass ?x] => pose proof (LS_start x) as [Z _]; destruct (start_first_pass x) as [s5 e5] end.
+        cbn [fst] in *. rewrite Z. reflexivity.
+      - match goal with |- context [if ?c then _ else _] => destruct c end; [|reflexivity].
+        match goal with |- context [start_first_pass ?x] => pose proof (LS_start x) as [Z _]; destruct (start_first_pass x) as [s5 e5] end.
+        cbn [fst] in *. rewrite Z. reflexivity. }
+    destruct (match lookup (cancel_timer s) (cur_addr (cancel_timer s)) with
+              | Some sc => d_raw (sds (cancel_timer s) sc) =? READY | None => false end).
+    + pose proof (seek_list s1 (cur_addr (cancel_timer s))) as [HK _].
+      destruct (al_seek s1 (cur_addr (cancel_timer s))) as [sk kept]. apply (G true sk kept). exact HK.
+    + apply (G false s1 false). reflexivity.
+Qed.
+
+(* b.addressList always holds a pre-processed list: no duplicates *)
+Lemma step_addrs_nodup s op : NoDup (addrs s) -> NoDup (addrs (fst (step_main s op))).
+Proof.
+  intros H. destruct (is_start s op) eqn:E; [|rewrite (proj1 (cursor_monotone s op E)); exact H].
+  destruct op as [|z r]; [discriminate E|].
+  destruct z as [|q|q]; try discriminate E.
+  do 3 (try destruct q as [q|q|]); try discriminate E.
+  - cbn [step_main]. rewrite (proj1 (exit_idle_list s)). exact H.
+  - cbn [step_main]. rewrite resolver_update_addrs. destruct (filter valid_addr r); [constructor|apply preprocess_NoDup].
+Qed.
+Lemma reachable_addrs_nodup s : reachable s -> NoDup (addrs s).
+Proof.
+  intros [ops ->]. assert (G : forall s0, NoDup (addrs s0) -> NoDup (addrs (fst (run_from s0 ops)))).
+  { induction ops as [|op r IH]; intros s0 H; cbn [run_from]; [exact H|].
+    pose proof (step_addrs_nodup s0 op H) as H1. rewrite <- step_fst in H1.
+    destruct (step s0 op) as [s1 e]. cbn [fst] in H1. specialize (IH s1 H1). destruct (run_from s1 r). exact IH. }
+  apply G. constructor.
+Qed.
